@@ -231,6 +231,26 @@ func (x *threadCtx) do(a action) {
 				err = rg.SetState(seq, api.KeyState(a.State))
 			}
 		}
+	case "RingOpen":
+		// take (or keep) a ring handle without updating anything: the view it holds starts ageing here
+		_, err = x.ring(ringPath(a.Client, a.Ring))
+	case "RingView":
+		// the complete view through the ring handle this thread already holds (no store access); a thread without one looks
+		// at the ring the way readers do
+		path := ringPath(a.Client, a.Ring)
+		if rg, ok := x.rings[path].(*recRing); ok {
+			v := rg.view()
+			x.r.Count("v2_view_actions_through_held_handle", 1)
+			if rg.lastRefused {
+				x.r.Count("v2_view_actions_right_after_refusal", 1)
+				x.r.SetAdd("v2_views_after_refused", rg.lastKind)
+			}
+			err = nil
+			x.log = append(x.log, fmt.Sprintf("t%d %s -> %s", x.t, a, v))
+			return
+		}
+		_, err = x.h.ks.OpenKeyRing(path)
+		x.explain(action{Kind: "ReadRing", Client: a.Client, Ring: a.Ring}, path, err, nil, false)
 	case "ImportNX", "ImportOW":
 		b := x.bundles[a.Bundle%len(x.bundles)]
 		err = x.h.ks.importRing(b.Data, x.h.suite, b.Path, b.Content, a.Kind == "ImportOW")
@@ -243,7 +263,7 @@ func (x *threadCtx) do(a action) {
 		ks, err = x.h.sks.GetServerDecryptionPrivateKeys(id)
 		var ds []string
 		for _, k := range ks {
-			ds = append(ds, dg(k.Value))
+			ds = append(ds, mat(k.Value))
 		}
 		x.explain(a, ringPath(a.Client, "pair"), err, ds, true)
 	case "ReadPriv":
@@ -251,7 +271,7 @@ func (x *threadCtx) do(a action) {
 		k, err = x.h.sks.GetServerDecryptionPrivateKey(id)
 		var ds []string
 		if k != nil {
-			ds = []string{dg(k.Value)}
+			ds = []string{mat(k.Value)}
 		}
 		x.explain(a, ringPath(a.Client, "pair"), err, ds, false)
 	case "ReadPub":
@@ -259,7 +279,7 @@ func (x *threadCtx) do(a action) {
 		k, err = x.h.sks.GetClientIDEncryptionPublicKey(id)
 		var ds []string
 		if k != nil {
-			ds = []string{dg(k.Value)}
+			ds = []string{mat(k.Value)}
 		}
 		x.explain(a, ringPath(a.Client, "pair"), err, ds, false)
 	case "ReadSymKeys":
@@ -267,17 +287,17 @@ func (x *threadCtx) do(a action) {
 		ks, err = x.h.sks.GetClientIDSymmetricKeys(id)
 		var ds []string
 		for _, k := range ks {
-			ds = append(ds, dg(k))
+			ds = append(ds, mat(k))
 		}
 		x.explain(a, ringPath(a.Client, "sym"), err, ds, true)
 	case "ReadSym":
 		var k []byte
 		k, err = x.h.sks.GetClientIDSymmetricKey(id)
-		x.explain(a, ringPath(a.Client, "sym"), err, []string{dg(k)}, false)
+		x.explain(a, ringPath(a.Client, "sym"), err, []string{mat(k)}, false)
 	case "ReadHmac":
 		var k []byte
 		k, err = x.h.sks.GetHMACSecretKey(id)
-		x.explain(a, ringPath(a.Client, "hmac"), err, []string{dg(k)}, false)
+		x.explain(a, ringPath(a.Client, "hmac"), err, []string{mat(k)}, false)
 	case "CycleHandle":
 		// another tool run on the same store: open a handle, maybe look at one ring, close it again
 		if x.open == nil {
@@ -342,7 +362,7 @@ func (x *threadCtx) explain(a action, path string, err error, got []string, all 
 	fail := func(what string) {
 		f := readerFinding{
 			Sig:    fmt.Sprintf("v2 reader %s: %s: backend=%s", a.Kind, what, x.backend),
-			Detail: map[string]interface{}{"action": a.String(), "thread": x.t, "error": errOrOK(err), "returned_digests": got},
+			Detail: map[string]interface{}{"action": a.String(), "thread": x.t, "error": errOrOK(err), "returned_material": shortAll(got)},
 		}
 		if last != nil {
 			f.Detail["opened"] = last.String()
@@ -420,6 +440,14 @@ func (x *threadCtx) explain(a action, path string, err error, got []string, all 
 		return
 	}
 	x.r.Count("v2_reader_results_consistent", 1)
+}
+
+func shortAll(ms []string) []string {
+	out := make([]string, len(ms))
+	for i, m := range ms {
+		out[i] = shortMat(m)
+	}
+	return out
 }
 
 // runProgram executes the actions, converting a panic of the code under test into a finding.
